@@ -302,7 +302,14 @@ def build_c(unit, units, outdir, defines=()):
     # harness
     hname = 'h_' + unit['name']
     if 'harness' in unit['sections']:
-        parts.append('void %s(void)\n{\n%s\n}' % (hname, unit['sections']['harness']))
+        gdecl = []
+        for n in used + [unit['name']]:
+            for gm in re.finditer(r'^\s*([A-Za-z_][\w ]*?[\w\*])\s+(gh_\w+(?:\s*,\s*gh_\w+)*)\s*;', units[n]['sections'].get('prelude', ''), re.M):
+                for g in re.split(r'\s*,\s*', gm.group(2)):
+                    gdecl.append('\t{ %s nd_%s; %s = nd_%s; }' % (gm.group(1), g, g, g))
+        for ty, g in shim_ghosts:
+            gdecl.append('\t{ %s nd_%s; %s = nd_%s; }' % (ty, g, g, g))
+        parts.append('void %s(void)\n{\n%s\n}' % (hname, unit['sections']['harness'].replace('/*@GHOST-HAVOC@*/', '\n'.join(gdecl))))
     else:
         m = re.match(r'^(.*?)\s(\w+)\((.*)\)$', main['sig'], re.S)
         params = [] if m.group(3).strip() == 'void' else ast2c.split_targs(m.group(3))
